@@ -622,6 +622,24 @@ class Program:
             st.extend(self.callees(self.funcs[f]))
         return seen
 
+    def mods(self, fid):
+        """qualified names of the fields/globals that function fid may write, directly or through the functions it calls
+        (write, read-modify-write, address taken, non-const std member call); None when a callee's body is unknown"""
+        cache = self.__dict__.setdefault('_mods', {})
+        if fid in cache:
+            return cache[fid]
+        out = set()
+        for g in self.reachable_from([fid]):
+            f = self.funcs[g]
+            if f.body is None and not f.d.get('inits'):
+                continue
+            for n in f.all_nodes():
+                r = n.get('ref')
+                if r and r['k'] in ('Field', 'Global', 'StaticMember') and access_kind(f, n) in ('write', 'rmw', 'addr', 'call'):
+                    out.add(r['n'])
+        cache[fid] = out
+        return out
+
     def callers_of(self, name):
         """[(Func, call node)] calling any function with this qualified name"""
         out = []
